@@ -409,13 +409,18 @@ impl State {
         let (write, path) = open_log_file(&self.config, Some(&infix))?;
         let roll_state = RollState::new(rotate_config.criterion, self.config.append, &path)?;
         let o_cleanup_thread_handle = if rotate_config.cleanup.do_cleanup() {
+            // a file that cannot be removed or compressed right now is no reason not to start:
+            // the output file is open already, and the cleanup is tried again with every rotation
             list_and_cleanup::remove_or_compress_too_old_logfiles(
                 None,
                 &rotate_config.cleanup,
                 &self.config.file_spec,
                 &naming_state.infix_filter(),
                 rotate_config.naming.writes_direct(),
-            )?;
+            )
+            .unwrap_or_else(|e| {
+                eprint_err(ErrorCode::LogFile, "cleanup of old log files failed", &e);
+            });
             if cleanup_in_background_thread {
                 Some(list_and_cleanup::start_cleanup_thread(
                     rotate_config.cleanup,
